@@ -439,3 +439,51 @@ impl Tree {
         }
     }
 }
+
+/// Verification access to the tree entry transitions (on raw bits)
+#[cfg(feature = "verif")]
+pub mod verif_tree {
+    use super::Tree;
+    use crate::{Class, PolicyFn, TreeChange};
+    pub fn with(free: usize, reserved: bool, class: Class) -> u32 {
+        Tree::with(free, reserved, class).into_bits()
+    }
+    pub fn put(raw: u32, free: usize, policy: PolicyFn, default: Class) -> u32 {
+        Tree::from_bits(raw).put(free, policy, default).into_bits()
+    }
+    pub fn steal(raw: u32, class: Class, free: usize, policy: PolicyFn) -> Option<u32> {
+        Tree::from_bits(raw)
+            .steal(class, free, policy)
+            .map(Tree::into_bits)
+    }
+    pub fn reserve_or_steal(raw: u32, free: usize, policy: PolicyFn, class: Class) -> Option<u32> {
+        Tree::from_bits(raw)
+            .reserve_or_steal(free, policy, class)
+            .map(Tree::into_bits)
+    }
+    pub fn unreserve_add(
+        raw: u32,
+        free: usize,
+        class: Class,
+        policy: PolicyFn,
+        default: Class,
+    ) -> Option<u32> {
+        Tree::from_bits(raw)
+            .unreserve_add(free, class, policy, default)
+            .map(Tree::into_bits)
+    }
+    pub fn sync_steal(raw: u32, min: usize) -> Option<u32> {
+        Tree::from_bits(raw).sync_steal(min).map(Tree::into_bits)
+    }
+    pub fn change(
+        raw: u32,
+        class: Option<Class>,
+        free: usize,
+        change: TreeChange,
+        fetch_free: usize,
+    ) -> Option<u32> {
+        Tree::from_bits(raw)
+            .change(class, free, change, || fetch_free)
+            .map(Tree::into_bits)
+    }
+}
